@@ -102,9 +102,18 @@ func VerifC08NoTrace() {
 		if nd.Choice(nm+".hasg", 2) == 1 {
 			it["g"] = vS(nd.StringN(nm+".g", 1))
 		}
+		// t: an attribute on which the filter of the failing reads (w, x, y) cannot be evaluated when it is a number
+		if nd.Param("reads", 1) == 1 {
+			if nd.Choice(nm+".t-is-number", 2) == 1 {
+				it["t"] = vN("1")
+			} else {
+				it["t"] = vS("t")
+			}
+		}
 		nd.Assert(vPut(c, it) == nil, "setup-put")
 	}
 	before := vObserveAll(c)
+	retVals := []types.ReturnValue{types.ReturnValueNone, types.ReturnValueAllOld, types.ReturnValueUpdatedOld, types.ReturnValueAllNew, types.ReturnValueUpdatedNew, types.ReturnValue("BOGUS")}
 	kp := nd.StringN("op.p", 1) // the request's key: may name a stored item or not
 	x := nd.StringN("op.x", 1)
 	tbl := aws.String(vTbl)
@@ -202,11 +211,58 @@ func VerifC08NoTrace() {
 				UpdateExpression: aws.String("SET w = :x ADD v :x"), ConditionExpression: aws.String("attribute_not_exists(nosuch)"), ExpressionAttributeValues: vItem{":x": vS(x)}})
 			return e
 		},
+		func() error { // 19 (t): DeleteItem with any ReturnValues setting, valid for the operation or not
+			_, e := c.DeleteItem(vCtx, &dynamodb.DeleteItemInput{TableName: tbl, Key: vItem{"p": vS(kp)}, ReturnValues: retVals[nd.Choice("retvals", len(retVals))]})
+			return e
+		},
+		func() error { // 20 (u): PutItem with any ReturnValues setting
+			_, e := c.PutItem(vCtx, &dynamodb.PutItemInput{TableName: tbl, Item: vItem{"p": vS(kp), "v": vS(x)}, ReturnValues: retVals[nd.Choice("retvals", len(retVals))]})
+			return e
+		},
+		func() error { // 21 (v): UpdateItem with any ReturnValues setting
+			_, e := c.UpdateItem(vCtx, &dynamodb.UpdateItemInput{TableName: tbl, Key: vItem{"p": vS(kp)}, ReturnValues: retVals[nd.Choice("retvals", len(retVals))],
+				UpdateExpression: aws.String("SET v = :x"), ExpressionAttributeValues: vItem{":x": vS(x)}})
+			return e
+		},
+		func() error { // 22 (w): Query whose filter cannot be evaluated on an item it visits (t is a number), either direction
+			_, e := c.Query(vCtx, &dynamodb.QueryInput{TableName: tbl, KeyConditionExpression: aws.String("p = :p"), FilterExpression: aws.String("begins_with(t, :x)"),
+				ExpressionAttributeValues: vItem{":p": vS(kp), ":x": vS(x)}, ScanIndexForward: aws.Bool(nd.Choice("forward", 2) == 1)})
+			return e
+		},
+		func() error { // 23 (x): Scan of the table or of the index with such a filter
+			in := &dynamodb.ScanInput{TableName: tbl, FilterExpression: aws.String("begins_with(t, :x)"), ExpressionAttributeValues: vItem{":x": vS(x)}}
+			if nd.Choice("through-index", 2) == 1 {
+				in.IndexName = aws.String(vIdx)
+			}
+			_, e := c.Scan(vCtx, in)
+			return e
+		},
+		func() error { // 24 (y): Query through the index with such a filter, either direction
+			_, e := c.Query(vCtx, &dynamodb.QueryInput{TableName: tbl, IndexName: aws.String(vIdx), KeyConditionExpression: aws.String("g = :g"), FilterExpression: aws.String("begins_with(t, :x)"),
+				ExpressionAttributeValues: vItem{":g": vS(kp), ":x": vS(x)}, ScanIndexForward: aws.Bool(nd.Choice("forward", 2) == 1)})
+			return e
+		},
+		func() error { // 25 (z): Query whose key condition names a non-key attribute, with a Limit
+			_, e := c.Query(vCtx, &dynamodb.QueryInput{TableName: tbl, KeyConditionExpression: aws.String("v = :x"), ExpressionAttributeValues: vItem{":x": vS(x)},
+				ScanIndexForward: aws.Bool(false), Limit: aws.Int32(1)})
+			return e
+		},
+		func() error { // 26 ({): GetItem with an ill-typed key
+			_, e := c.GetItem(vCtx, &dynamodb.GetItemInput{TableName: tbl, Key: vItem{"p": vN("1")}})
+			return e
+		},
 	}
-	which := nd.Choice("request", len(reqs))
+	nreq := len(reqs)
+	if nd.Param("reads", 1) == 0 {
+		nreq = 19
+	}
+	which := nd.Choice("request", nreq)
 	err, panicked = vCatch(reqs[which])
 	if err != nil || panicked {
 		nd.Reach("failed")
+		if which >= 22 && which <= 24 {
+			nd.Reach("failed-read")
+		}
 		after := vObserveAll(c)
 		nd.Assert(before.same(after), "C08-failed-request-leaves-no-trace [request "+string(rune('a'+which))+"]")
 		vInvariant(c, "C08")
